@@ -153,6 +153,20 @@ class ShmWire(Harness):
                 obligations.append({"kind": "boundary-literal", "class": cname, "msg": repr(lit)[:80], "result": "differ" if ok else "agree", "has_fields": True})
                 if ok:
                     hr.failures.append(self._fail(f"{cname}-roundtrip", f"{lit!r}: {why}", {"kind": "roundtrip", "class": cname, "fields": self._fields(lit)}, True))
+            # ... and whatever lies in the admitted domain has to be accepted (again through the real code, so that this part of the
+            # verdict does not depend on the translator being able to follow the source)
+            for lit in self._domain_literals(api, model, cname):
+                bad, why = self.replay_accept(api, lit)
+                if not bad:
+                    bad, why = self.replay_roundtrip(api, lit)
+                    key = f"{cname}-roundtrip"
+                    kind = "roundtrip"
+                else:
+                    key = f"{cname}-rejects-domain-value"
+                    kind = "accept"
+                obligations.append({"kind": "domain-literal", "class": cname, "msg": repr(lit)[:80], "result": "differ" if bad else "agree", "has_fields": True})
+                if bad:
+                    hr.failures.append(self._fail(key, f"{lit!r}: {why}", {"kind": kind, "class": cname, "fields": self._fields(lit)}, True))
             try:
                 self._class_obligations(model, api, cname, hr, check, obligations)
             except Untranslatable as u:
@@ -296,6 +310,20 @@ class ShmWire(Harness):
         for fname, ann in model.fields_of(cname):
             kw[fname] = "k" if ann == "str" else (1 if ann == "int" else list(getattr(api, ann))[0])
         return getattr(api, cname)(**kw)
+
+    def _domain_literals(self, api, model, cname):
+        fl = model.fields_of(cname)
+        if not fl:
+            return []
+        cls = getattr(api, cname)
+        out = []
+        for sval, ival in [("", 0), ("k", 2**32 - 1), ("key", 2**32), ("x" * 40, 2**40 + 5), ("\x7f", 2**63)]:
+            for ei in range(max([len(list(getattr(api, ann))) for _, ann in fl if ann not in ("str", "int")] + [1])):
+                kw = {}
+                for fname, ann in fl:
+                    kw[fname] = sval if ann == "str" else (ival if ann == "int" else list(getattr(api, ann))[ei])
+                out.append(cls(**kw))
+        return out
 
     def _boundary_literals(self, api, model, cname):
         fl = model.fields_of(cname)
